@@ -823,14 +823,34 @@ class _Idioms(ast.NodeTransformer):
     def visit_Try(self, node):
         node = self.generic_visit(node)
         new = []
-        for h in node.handlers:
-            if h.name and len(h.body) == 1 and isinstance(h.body[0], ast.If) and h.body[0].orelse:
-                t = h.body[0].test
-                if isinstance(t, ast.Call) and isinstance(t.func, ast.Name) and t.func.id == 'isinstance' and len(t.args) == 2 \
-                        and isinstance(t.args[0], ast.Name) and t.args[0].id == h.name and isinstance(h.type, ast.Name) and h.type.id in ('Exception', 'BaseException') \
-                        and _exc_types(t.args[1]):
-                    new.append(_fix(ast.ExceptHandler(type=t.args[1], name=h.name, body=h.body[0].body), h))
-                    new.append(_fix(ast.ExceptHandler(type=h.type, name=h.name, body=h.body[0].orelse), h))
+        import copy as _copy
+        work = list(node.handlers)
+        while work:
+            h = work.pop(0)
+            # `except Exception as e: if isinstance(e, T): A else: B; R`  ==  `except T as e: A; R` / `except Exception as e: B; R`
+            # (T exception classes, hence subclasses of what the handler catches; e not rebound; a leading logging call moves into both)
+            lead = 0
+            while h.name and lead < len(h.body) and isinstance(h.body[lead], ast.Expr) and isinstance(h.body[lead].value, ast.Call) and _is_logger_call(h.body[lead].value):
+                lead += 1
+            if h.name and lead < len(h.body) and isinstance(h.body[lead], ast.If):
+                first = h.body[lead]
+                t = first.test
+                neg = False
+                if isinstance(t, ast.UnaryOp) and isinstance(t.op, ast.Not):
+                    t = t.operand; neg = True
+                rebound = any(isinstance(x, ast.Name) and x.id == h.name and isinstance(x.ctx, (ast.Store, ast.Del)) for st_ in h.body for x in ast.walk(st_))
+                if isinstance(t, ast.Call) and isinstance(t.func, ast.Name) and t.func.id == 'isinstance' and len(t.args) == 2 and not t.keywords \
+                        and isinstance(t.args[0], ast.Name) and t.args[0].id == h.name and (h.type is None or (isinstance(h.type, ast.Name) and h.type.id in ('Exception', 'BaseException'))) \
+                        and _exc_types(t.args[1]) and not rebound:
+                    yes, no = (first.orelse, first.body) if neg else (first.body, first.orelse)
+                    rest = h.body[lead + 1:]
+                    pre = h.body[:lead]
+                    b1 = _copy.deepcopy(pre) + list(yes) + ([] if _always_leaves(yes) else _copy.deepcopy(rest))
+                    b2 = pre + list(no) + ([] if (no and _always_leaves(no)) else rest)
+                    h1 = _fix(ast.ExceptHandler(type=t.args[1], name=h.name, body=b1 or [_fix(ast.Pass(), h)]), h)
+                    h2 = _fix(ast.ExceptHandler(type=h.type, name=h.name, body=b2 or [_fix(ast.Pass(), h)]), h)
+                    new.append(h1)
+                    work.insert(0, h2)
                     continue
             new.append(h)
         node.handlers = new
